@@ -1208,7 +1208,9 @@ def _oracle_selftest(trees, pts):
                     fd = (g[0] - 8 * g[1] + 8 * g[2] - g[3]) / (12 * h)
                     d = r["d"][i][el] if orc.has_v else r["d"][i]
                     n += 1
-                    if abs(fd - d) > 1e-5 * max(1.0, abs(d), abs(fd)):
+                    # round-off floor of the difference quotient: the four values carry ~eps*|g| each
+                    floor = 32 * 2.3e-16 * max(abs(x) for x in g) / h
+                    if abs(fd - d) > 1e-5 * max(1.0, abs(d), abs(fd)) + floor:
                         bad += 1
                         first = first or f"{s} d/d{var} at {_pt(p)}: dual {d} vs finite difference {fd}"
     return n, bad, first
